@@ -404,7 +404,7 @@ func checkC09(c *Ctx) {
 	forms := c09Forms
 	nsig := len(c09Signatures(maxP))
 	c.Extra["signatures"] = nsig
-	progs = append(progs, c09Recursion(c.pick(300, 1500)))
+	progs = append(progs, c09Recursion(c.pick(300, 700)))
 	progs = append(progs, c09TypedDecls(), c09VariadicTypes(), c09NamedTypes(false), c09NamedTypes(true))
 	// seeded random call-heavy programs: function literals, method values, return f(), variadics
 	r := rand.New(rand.NewSource(c.Seed))
